@@ -183,11 +183,12 @@ Definition undecided_remote (scheme hostinfo : str) : M (str * str) :=
     end
   else Ok (scheme, hostinfo).
 
-(* all(x and int(x) <= 255 for x in hostname.split(".")) *)
+(* all(x and len(x) <= 3 and int(x) <= 255 for x in hostname.split(".")) *)
 Fixpoint all_octets (parts : list str) : M bool :=
   match parts with
   | [] => Ok true
   | x :: r => if is_nil x then Ok false
+              else if negb (blen x <=? 3) then Ok false
               else v <- py_int_digits x ;; if v <=? 255 then all_octets r else Ok false
   end.
 Definition is_ipv4_literal (hostname : str) : M bool :=
@@ -217,8 +218,8 @@ Definition set_request_uri (uri : str) (set_uri_host : bool) : M decomposed :=
         uri_path <- catch_unicode (unquote_path path) ;;
         uri_query <- catch_unicode (unquote_query query) ;;
         _ <- catch_value (port_of netloc) ;;
-        remote <- undecided_remote scheme netloc ;;
-        is_ip_literal <- (if startswith netloc [91] then Ok true else is_ipv4_literal hostname) ;;
+        remote <- catch_value (undecided_remote scheme netloc) ;;      (* except ValueError -> MalformedUrlError (IPvFuture) *)
+        is_ip_literal <- (if mem 91 netloc then Ok true else is_ipv4_literal hostname) ;;   (* "[" in parsed.netloc *)
         if set_uri_host && negb is_ip_literal then
           h <- catch_unicode (unquote hostname) ;;
           Ok (DRequest (fst remote) (snd remote) (Some (translate ascii_lowercase h)) uri_path uri_query)
